@@ -320,6 +320,26 @@ def run(ctx):
                     p["ineq"] = ";".join("s:2:%s:%s:%d" % (hexd(tols[j]), hexd(b + 0.1 * j), j) for j in range(m))
                 p["stopval"] = 1e6
                 ps.append(p)
+        # the objective signals a domain error (+Inf) at some trial points while the incumbent is still infeasible and already below
+        # stopval: the stopval test must look at the feasibility of the INCUMBENT, not of the point just evaluated
+        for nm in STOPVAL_ALGS:
+            for _ in range(60 if ctx.thorough else 16):
+                n = rng.choice([2, 3])
+                p = problems.gen_problem(rng, A, alg_name=nm, n=n, with_constraints=False, box="finite", maxeval=rng.choice([40, 100]), allow_max=False)
+                for k in ("stopval", "ftol_rel", "xtol_rel", "xtol_abs", "xw", "maxtime", "clockq"):
+                    p.pop(k, None)
+                p["lb"], p["ub"] = [-3.0] * n, [3.0] * n
+                p["obj"] = 0
+                d = [rng.gauss(0, 1) for _ in range(n)]
+                nd = sum(t * t for t in d) ** 0.5 or 1.0
+                p["oc"] = [2.5 * t / nd for t in d]            # unconstrained optimum outside the feasible ball
+                r = rng.uniform(0.5, 1.0)
+                p["ineq"] = "s:1:%s:%s:0" % (hexd(rng.choice([0.0, 1e-8])), hexd(r * r))
+                p["x0"] = [1.6 * t / nd for t in d]            # infeasible start, closer to the unconstrained optimum than any feasible point
+                dist = 2.5 - r                                 # distance of the constrained optimum from the centre of the bowl
+                p["stopval"] = 1.05 * (dist * dist) * (1 + 0.5 * (n - 1))   # above the constrained optimum's value (weights 1 + i/2 at most)
+                p["inj"] = "%d:7ff0000000000000" % rng.choice([2, 3, 4, 5, 7])
+                ps.append(p)
         # forced stops: the returned x of the algorithms of the first clause is still the best feasible evaluated point
         for nm in ALGS:
             for _ in range(40 if ctx.thorough else 10):
